@@ -15,6 +15,10 @@ def _witness():
     return (SUP / "witness_main.py").read_text(), (SUP / "witness_raise.py").read_text()
 
 
+def _witness_nested():
+    return (SUP / "witness_nested.py").read_text()
+
+
 def _hier():
     import impl
 
@@ -70,7 +74,44 @@ def check_C09(ctx):
             src = raise_src if hk == "uncaught_exception" else main_src
             cases.append({"id": "%s/%s" % (hk, mode), "files": {"main.py": src}, "entry": "main", "want": ("inst",),
                           "analyses": [{"cls": "A0", "hooks": {hk: None}}], "select": (names if mode == "all" else None)})
-    res = runner.run_cases(cases)
+    # second witness: a hook that fires under all-hooks instrumentation must fire under single-hook instrumentation too
+    nested = _witness_nested()
+    ncases = []
+    for hk in names:
+        if hk in EXEC_LEVEL:
+            continue
+        for mode in ("single", "all"):
+            ncases.append({"id": "nested:%s/%s" % (hk, mode), "files": {"main.py": nested}, "entry": "main", "want": ("inst",),
+                           "analyses": [{"cls": "A0", "hooks": {hk: None}}], "select": (names if mode == "all" else None)})
+    res = runner.run_cases(cases + ncases)
+    nres = dict(zip([c["id"] for c in ncases], res[len(cases):]))
+    res = res[:len(cases)]
+    for hk in names:
+        if hk in EXEC_LEVEL:
+            continue
+        rs, ra = nres["nested:%s/single" % hk], nres["nested:%s/all" % hk]
+        if "harness_error" in rs or "harness_error" in ra:
+            ctx.broken.append("harness error in C09 nested case %s: %s" % (hk, (rs.get("harness_error") or ra.get("harness_error"))[-300:]))
+            continue
+        ds = [d for d in _loc_dels(rs, "A0") if d[0] == hk]
+        da = [d for d in _loc_dels(ra, "A0") if d[0] == hk]
+        ctx.count(2, ["nested:" + hk])
+        ctx.impl_traces += 2
+        if da and not ds:
+            ctx.violation("C09:dead_single:%s" % hk, "hook %s fires %d times on the nested witness under all-hooks instrumentation but never when it is the only hook" % (hk, len(da)), {"case": next(c for c in ncases if c["id"] == "nested:%s/single" % hk)})
+        else:
+            missing = sorted(set(x[1] for x in da if x[1]) - set(x[1] for x in ds if x[1]))
+            if missing:
+                lines = nested.splitlines()
+                import re as _re
+
+                def seg(loc):
+                    (sl, sc, el, ec) = loc[1]
+                    return lines[sl - 1][sc:] if sl <= len(lines) else ""
+
+                aug = all(_re.search(r"(\+|-|\*|/|//|%|\*\*|<<|>>|&|\||\^|@)=", seg(m)) and "==" not in seg(m).split("=")[0] for m in missing)
+                key = "C09:sites_differ:augassign" if aug else "C09:sites_differ:%s" % hk
+                ctx.violation(key, "hook %s: constructs at %r deliver it under all-hooks instrumentation but not when it is the only hook" % (hk, [m[1] for m in missing][:4]), {"case": next(c for c in ncases if c["id"] == "nested:%s/single" % hk)})
     for c, r in zip(cases, res):
         hk, mode = c["id"].split("/")
         if "harness_error" in r:
@@ -114,7 +155,7 @@ def check_C09(ctx):
 def _programs(ctx, n):
     """programs used by the engine-level end-to-end oracles: the witness program plus generated ones"""
     main_src, _ = _witness()
-    progs = [("witness", {"main.py": main_src})]
+    progs = [("witness", {"main.py": main_src}), ("calls", {"main.py": (SUP / "witness_calls.py").read_text()}), ("nested", {"main.py": _witness_nested()})]
     try:
         import genprog
 
@@ -180,6 +221,10 @@ def check_C10(ctx):
                 ans.append({"cls": "A%d" % i, "hooks": {hk: None for hk in hooks}, "conf": conf})
             if rng.random() < 0.3:
                 ans[1]["hooks"] = dict(ans[0]["hooks"])  # identical hook sets: order within an event is observable
+            if rng.random() < 0.35:
+                # the same analysis class listed twice (distinguished by its tag option)
+                j = rng.randrange(1, k)
+                ans[j] = {"cls": ans[0]["cls"], "tag": "A%d" % j, "hooks": ans[0]["hooks"], "conf": dict(ans[j].get("conf") or {}, tag="A%d" % j)}
             union = sorted(set(hk for a in ans for hk in a["hooks"]))
             order = list(range(k))
             rng.shuffle(order)
@@ -202,20 +247,20 @@ def check_C10(ctx):
             if "harness_error" in rs:
                 ctx.broken.append("harness error C10 %s" % s["id"])
                 continue
-            a = _loc_dels(rf, "A%d" % i)
-            b = _loc_dels(rs, "A%d" % i)
+            a = _loc_dels(rf, ans[i].get("tag", ans[i]["cls"]))
+            b = _loc_dels(rs, ans[i].get("tag", ans[i]["cls"]))
             if a != b:
                 j = next((x for x in range(min(len(a), len(b))) if a[x] != b[x]), min(len(a), len(b)))
                 ctx.violation("C10:isolation", "analysis A%d receives a different sequence among %d analyses than alone (first difference at %d: %r vs %r)" % (i, len(ans), j, a[j:j + 1], b[j:j + 1]), {"full": full, "solo": s})
         # (2) begin first / end last for each analysis that implements them
         for a in full["analyses"]:
-            seq = [d[2] for d in rf["inst"]["deliveries"] if d[0] == a["cls"]]
+            seq = [d[2] for d in rf["inst"]["deliveries"] if d[0] == a.get("tag", a["cls"])]
             if "begin_execution" in a["hooks"] and (seq.count("begin_execution") != 1 or seq[0] != "begin_execution"):
                 ctx.violation("C10:begin", "analysis %s: begin_execution not exactly once first: %r" % (a["cls"], seq[:3]), {"full": full})
             if "end_execution" in a["hooks"] and (seq.count("end_execution") != 1 or seq[-1] != "end_execution"):
                 ctx.violation("C10:end", "analysis %s: end_execution not exactly once last: %r" % (a["cls"], seq[-3:]), {"full": full})
         # (3) within one event: listed order
-        pos = {a["cls"]: n for n, a in enumerate(full["analyses"])}
+        pos = {a.get("tag", a["cls"]): n for n, a in enumerate(full["analyses"])}
         dl = rf["inst"]["deliveries"]
         for x, y in zip(dl, dl[1:]):
             if x[2] == y[2] and x[3] == y[3] and x[0] != y[0] and x[2] not in ("begin_execution", "end_execution"):
@@ -223,9 +268,9 @@ def check_C10(ctx):
                     ctx.violation("C10:order", "event %s delivered to %s before %s although listed after" % (x[2], x[0], y[0]), {"full": full})
                     break
         for a in full["analyses"]:
-            ex = [(t, kw) for t, kw in rf["inst"]["constructed"] if t == a["cls"]]
-            if a["hooks"] and a["hooks"].keys() - {"begin_execution", "end_execution"} is not None:
-                want = sorted((a.get("conf") or {}).items())
+            ex = [(t, kw) for t, kw in rf["inst"]["constructed"] if t == a.get("tag", a["cls"])]
+            if True:
+                want = sorted((k_, v_) for k_, v_ in (a.get("conf") or {}).items() if k_ != "tag")
                 if not ex or sorted(map(tuple, ex[-1][1])) != [tuple(x) for x in want]:
                     ctx.violation("C10:options", "analysis %s constructed with %r, configured %r" % (a["cls"], ex, want), {"full": full})
 
@@ -235,7 +280,7 @@ def prove_C11(ctx):
     ctx.prove(["Properties/C11.v"])
 
 
-FILTERABLE = {"integer": ["1", "2", "6", "0"], "boolean": ["True", "False"], "string": ['"s"', "'x'", '"a"'], "pre_call": ["fn", "decorated", "list", "k", "nosuch"], "post_call": ["fn", "decorated", "list", "k", "nosuch"]}
+FILTERABLE = {"integer": ["1", "2", "6", "0"], "boolean": ["True", "False"], "string": ['"s"', "'x'", '"a"'], "pre_call": ["fn", "decorated", "list", "k", "nosuch", "foo", "bar", "apply"], "post_call": ["fn", "decorated", "list", "k", "nosuch", "foo", "bar", "apply"]}
 
 
 def check_C11(ctx):
@@ -286,6 +331,17 @@ def check_C11(ctx):
             fset[d] = fset.get(d, 0) + 1
         for d in u_h:
             tok = _token_of(hk, d, src_lines)
+            alias = ""
+            if hk in ("pre_call", "post_call"):
+                # the "name" of a call event is the callee's own name (the documentation says "by function name")
+                callee = str(d[2][0] if hk == "pre_call" else (d[2][1] if len(d[2]) > 1 else ""))
+                import re as _re
+
+                mm = _re.match(r"<(?:fn|class) (\w+)>", callee)
+                name = mm.group(1) if mm else None
+                if name is not None and name != tok:
+                    alias = ":alias"
+                tok = name if name is not None else tok
             if tok is None:
                 continue
             listed = tok in pats
@@ -297,9 +353,9 @@ def check_C11(ctx):
                 callee = d[2][0] if hk == "pre_call" else (d[2][1] if len(d[2]) > 1 else "")
                 sub = ":class_callee" if str(callee).startswith("<class ") else ""
             if kind == "only" and listed and not delivered:
-                ctx.violation("C11:only_exact" + sub, "only(%r): event for %r withheld" % (pats, tok), {"filtered": cf})
+                ctx.violation("C11:only_exact:" + hk + sub + alias, "only(%r): event for %r withheld" % (pats, tok), {"filtered": cf})
             if kind == "ignore" and listed and delivered:
-                ctx.violation("C11:ignore_exact" + sub, "ignore(%r): event for %r delivered" % (pats, tok), {"filtered": cf})
+                ctx.violation("C11:ignore_exact:" + hk + sub, "ignore(%r): event for %r delivered" % (pats, tok), {"filtered": cf})
             unrelated = not listed and not any(str(x).strip("'\"") in [p.strip("'\"") for p in pats] for x in d[2])
             if unrelated and kind == "only" and delivered:
                 ctx.violation("C11:only_unrelated", "only(%r): unrelated event %r delivered" % (pats, (tok, d[2])), {"filtered": cf})
@@ -341,6 +397,10 @@ def check_C13(ctx):
         for rep in range(2):
             k = rng.choice([1, 2, 3])
             ans = [{"cls": rng.choice(["CovA", "CovB"]) if rng.random() < 0.3 else "Cov%d" % i, "tag": "T%d" % i, "hooks": {hk: None for hk in rng.sample([x for x in HOOK_POOL if x not in EXEC_LEVEL], rng.randrange(1, 5))}} for i in range(k)]
+            for a in ans:
+                if rng.random() < 0.5:
+                    fh = rng.choice(sorted(FILTERABLE))
+                    a["hooks"][fh] = [rng.choice(["only", "ignore"]), rng.sample(FILTERABLE[fh], 2)]
             # distinct class names required by the analyses module; same class twice is exercised by the dispatch stream
             seen = set()
             for a in ans:
